@@ -614,6 +614,9 @@ pub(crate) struct ConnSim {
     pub raw_tail: Vec<u8>,
     /// set when the server closed the stream or sent a frame on a stream nobody waits on
     pub must_break: Option<String>,
+    /// labels of the events the connection forwarded (only with an event sender)
+    pub events_rx: Option<tokio::sync::mpsc::Receiver<String>>,
+    pub events_seen: Vec<String>,
 }
 
 pub(crate) fn tag_of(body: &[u8]) -> String {
@@ -627,16 +630,29 @@ pub(crate) fn tag_of(body: &[u8]) -> String {
 
 impl ConnSim {
     pub fn new(write_coalescing: bool, keepalive: Option<(Duration, Duration)>) -> Self {
+        Self::new_ev(write_coalescing, keepalive, false)
+    }
+
+    /// `events`: the connection gets an event sender (frames on stream -1 go through `handle_event`).
+    pub fn new_ev(write_coalescing: bool, keepalive: Option<(Duration, Duration)>, events: bool) -> Self {
         let (client, server) = tokio::io::duplex(1 << 22);
         let gate = Arc::new(Mutex::new(Gate::default()));
         let gated = Gated { inner: client, gate: gate.clone() };
-        let (conn, broken_rx) = RawConnection::spawn(
-            gated,
-            keepalive.map(|k| k.0),
-            keepalive.map(|k| k.1),
-            write_coalescing,
-        );
+        let (conn, broken_rx, events_rx) = if events {
+            let (c, b, e) = RawConnection::spawn_with_events(
+                gated,
+                keepalive.map(|k| k.0),
+                keepalive.map(|k| k.1),
+                write_coalescing,
+            );
+            (c, b, Some(e))
+        } else {
+            let (c, b) = RawConnection::spawn(gated, keepalive.map(|k| k.0), keepalive.map(|k| k.1), write_coalescing);
+            (c, b, None)
+        };
         ConnSim {
+            events_rx,
+            events_seen: Vec::new(),
             conn: Arc::new(conn),
             broken_rx,
             broken: None,
@@ -770,6 +786,11 @@ impl ConnSim {
         settle().await;
         self.server_read(ctx);
         self.poll_broken();
+        if let Some(rx) = self.events_rx.as_mut() {
+            while let Ok(label) = rx.try_recv() {
+                self.events_seen.push(label);
+            }
+        }
     }
 
     /// Account for raw bytes sent by the server: whole frames answer the unanswered entry on their stream.
